@@ -101,8 +101,8 @@ PROPERTIES = {
     },
     "C05": {
         "units": ["U-bigint", "U-literal"],
-        "claim": "util::BigInt integer layer, for all unbounded integers: checked_add/sub/mul are exact or Err beyond the magnitude cap; checked_div truncates toward zero and fails exactly on a zero divisor; checked_mod has the sign of the dividend; checked_shl multiplies by 2^k, checked_shr floors; slice/concat select and join exactly the named bits of the infinite two's-complement expansion and produce sized non-negative values; neg, &, |, ^ forward to the big-integer operation; sizes are tracked as stated. Literals: parse_radix implements the prefix rule (0b/0o/0x/%/$), excerpt_as_usize returns exactly the value of the digits ignoring '_' or fails loudly on a bad digit or a value above the machine word; excerpt_as_bigint returns that value unbounded, with size = digits x bits-per-digit for bases 2/8/16 and no size for decimal, and needs at least one digit.",
-        "not_reached": "operator precedence/associativity (expr/parser.rs), the tree-walking evaluator, string escapes/encodings, built-in functions, `!` (byte-level Not), convert_le, from_bytes_be; the tokenizer that cuts a literal out of the text",
+        "claim": "util::BigInt integer layer, for all unbounded integers: checked_add/sub/mul are exact or Err beyond the magnitude cap; checked_div truncates toward zero and fails exactly on a zero divisor; checked_mod has the sign of the dividend; checked_shl multiplies by 2^k, checked_shr floors; slice/concat select and join exactly the named bits of the infinite two's-complement expansion and produce sized non-negative values; neg, &, |, ^ forward to the big-integer operation; sizes are tracked as stated; from_bytes_be (string values): size 8 x bytes and the unsigned big-endian value. Literals: parse_radix implements the prefix rule (0b/0o/0x/%/$), excerpt_as_usize returns exactly the value of the digits ignoring '_' or fails loudly on a bad digit or a value above the machine word; excerpt_as_bigint returns that value unbounded, with size = digits x bits-per-digit for bases 2/8/16 and no size for decimal, and needs at least one digit.",
+        "not_reached": "operator precedence/associativity (expr/parser.rs), the tree-walking evaluator, string escapes/encodings, built-in functions, `!` (byte-level Not), convert_le; the tokenizer that cuts a literal out of the text; strings whose first byte is >= 0x80 (known finding D11)",
         "trusted_base": NUMBIGINT_TB + REPORT_TB,
     },
     "C06": {
